@@ -4,6 +4,7 @@
 package main
 
 import (
+	"fmt"
 	"sync/atomic"
 
 	"verif/mc"
@@ -77,6 +78,37 @@ func check(c tcase) *mc.Failure {
 			}
 			if !clipped(res, in, 0) {
 				return mc.Failf(0, "Partition(mask %b) result len %d cap %d is not capacity-clipped: appending to it would write into the input's backing array", c.Arg, len(res), cap(res))
+			}
+			if full := in[:cap(in)]; len(full) > n && full[n] != -100-n {
+				return mc.Failf(0, "Partition wrote beyond the slice")
+			}
+		case "PartitionLong":
+			pats := []func(v int) bool{
+				func(v int) bool { return false }, func(v int) bool { return true }, func(v int) bool { return v%2 == 0 },
+				func(v int) bool { return v%2 == 1 }, func(v int) bool { return v < n/2 }, func(v int) bool { return v >= n/2 },
+				func(v int) bool { return v%3 == 0 }, func(v int) bool { return v != n/2 }, func(v int) bool { return v == n-1 },
+				func(v int) bool { return v == 0 }, func(v int) bool { return v%16 < 8 }, func(v int) bool { return (v*7)%11 < 5 },
+			}
+			keep := pats[c.Arg%len(pats)]
+			res := slice.Partition(in, keep)
+			var want []int
+			for v := 0; v < n; v++ {
+				if keep(v) {
+					want = append(want, v)
+				}
+			}
+			if !mc.EqInts(res, want) {
+				return mc.Failf(0, "Partition(0..%d, pattern %d): kept elements %.80s, want %.80s", n-1, c.Arg, fmt.Sprint(res), fmt.Sprint(want))
+			}
+			seen := map[int]bool{}
+			for _, v := range in {
+				if v < 0 || v >= n || seen[v] {
+					return mc.Failf(0, "Partition(0..%d, pattern %d) is not a permutation of its input afterwards", n-1, c.Arg)
+				}
+				seen[v] = true
+			}
+			if len(res) > 0 && &res[0] != &in[0] || !clipped(res, in, 0) {
+				return mc.Failf(0, "Partition(0..%d, pattern %d): result is not a capacity-clipped prefix (len %d cap %d)", n-1, c.Arg, len(res), cap(res))
 			}
 			if full := in[:cap(in)]; len(full) > n && full[n] != -100-n {
 				return mc.Failf(0, "Partition wrote beyond the slice")
@@ -236,7 +268,7 @@ func main() {
 		Name: "slice-utils",
 		Explore: func(r *mc.Run) {
 			maxLen := mc.Pick(r, 12, 16)
-			rotLen := mc.Pick(r, 24, 48)
+			rotLen := mc.Pick(r, 130, 300)
 			var cases []tcase
 			for l := -1; l <= maxLen; l++ {
 				n := max(l, 0)
@@ -262,6 +294,19 @@ func main() {
 				n := max(l, 0)
 				for k := -n - 2; k <= n+2; k++ {
 					cases = append(cases, tcase{Fn: "Rotate", Len: l, Arg: k})
+				}
+			}
+			// longer slices: thresholds in an implementation (block moves, unrolled
+			// loops) lie beyond what 2^n enumeration can reach
+			for _, l := range []int{17, 31, 32, 33, 63, 64, 65, 100, 128, 129, 255, 257} {
+				for _, spare := range []int{0, 1, 100} {
+					// keep patterns: none, all, alternating, first half, last half, every third, all but one
+					for pat := 0; pat < 12; pat++ {
+						cases = append(cases, tcase{Fn: "PartitionLong", Len: l, Spare: spare, Arg: pat})
+					}
+					for _, a := range []int{1, 2, 3, 7, 8, 15, 16, 17, l / 2, l - 1, l, l + 1} {
+						cases = append(cases, tcase{Fn: "Chunks", Len: l, Spare: spare, Arg: a}, tcase{Fn: "Batches", Len: l, Spare: spare, Arg: a})
+					}
 				}
 			}
 			for _, shp := range mc.AllSeqs(4, 3) { // up to 3 rows of length 0..3
